@@ -134,12 +134,34 @@ def rule_lvl(c: Ctx) -> RuleResult:
         by_func.setdefault(f, []).append(n)
     for f, stores in sorted(by_func.items(), key=lambda kv: kv[0].qual):
         r.functions += 1
-        if f.short == "fragments_join":
-            _lvl_recompute_loop(c, r, f, stores)
-        else:
-            _lvl_constructed(c, r, f, stores)
+        rec = [st_ for st_ in stores if _is_recompute_store(f, st_)]
+        con = [st_ for st_ in stores if st_ not in rec]
+        if rec:
+            _lvl_recompute_loop(c, r, f, rec)
+        if con:
+            _lvl_constructed(c, r, f, con)
     r.floor = 20
     return r
+
+
+def _enclosing_loop(f: Func, s: ast.AST):
+    p = f.module.parents.get(s)
+    while p is not None and p is not f.node:
+        if isinstance(p, (ast.While, ast.For)):
+            return p
+        p = f.module.parents.get(p)
+    return None
+
+
+def _is_recompute_store(f: Func, s: ast.AST) -> bool:
+    """`X.level = counter` inside a loop that also tests `X.nesting`: a recomputation of levels from the nesting fields."""
+    if not (isinstance(s, ast.Assign) and len(s.targets) == 1 and isinstance(s.targets[0], ast.Attribute)):
+        return False
+    loop = _enclosing_loop(f, s)
+    if loop is None:
+        return False
+    recv = U(s.targets[0].value)
+    return any(isinstance(x, ast.Attribute) and x.attr == "nesting" and U(x.value) == recv for x in ast.walk(loop))
 
 
 def _lvl_recompute_loop(c: Ctx, r: RuleResult, f: Func, stores: list[ast.AST]) -> None:
@@ -165,7 +187,12 @@ def _lvl_recompute_loop(c: Ctx, r: RuleResult, f: Func, stores: list[ast.AST]) -
             continue
         var = s.value.id
         # the loop must run on every path through the function: an early return may only test the iterated list itself
-        iterated = U(s.targets[0].value.value) if isinstance(s.targets[0].value, ast.Subscript) else U(s.targets[0].value)       # type: ignore[attr-defined]
+        if isinstance(s.targets[0].value, ast.Subscript):                      # type: ignore[attr-defined]
+            iterated = U(s.targets[0].value.value)                             # type: ignore[attr-defined]
+        elif isinstance(loop, ast.For):
+            iterated = U(loop.iter)
+        else:
+            iterated = U(s.targets[0].value)                                   # type: ignore[attr-defined]
         for rt in own_nodes(f.node):
             if isinstance(rt, ast.Return) and rt.lineno < loop.lineno and not any(x is rt for x in ast.walk(loop)):
                 guard = f.module.parents.get(rt)
